@@ -49,12 +49,36 @@ def ite_table(idx, vals):
     for k in range(len(vals) - 2, -1, -1): e = z3.If(idx == k, z3.RealVal(vals[k]), e)
     return e
 
+CASE_SPLIT = set()
 def sym_convert(mod, fn, n, a, b, parsed):
+    """convert(a,b) with the enum arguments as solver variables.  Normally the switch tables become ite chains and one path
+    covers all pairs; if the conversion is no longer table-shaped (loops or branches on the arguments) and the symbolic run
+    exceeds its budget, the arguments are case-split (one run per ordered pair, still discharged by the solver per case)."""
     def body(it):
-        it.table_ite = True
+        it.table_ite = True; it.max_instr = 2_000_000
         it.assume(z3.And(a >= 0, a < n, b >= 0, b < n))
         return it.call('@h_' + fn, [a, b])
-    return explore(mod, models.all_models(), body, parsed=parsed, max_paths=2000)
+    try:
+        return explore(mod, models.all_models(), body, parsed=parsed, max_paths=300, timeout=60)
+    except symx.Unsupported:
+        CASE_SPLIT.add(fn)
+        results = []; stats = {'models_used': set(), 'paths': 0}
+        for i in range(n):
+            for j in range(n):
+                def body2(it, i=i, j=j):
+                    it.max_instr = 2_000_000
+                    it.assume(z3.And(a == i, b == j)); return it.call('@h_' + fn, [i, j])
+                r, st = explore(mod, models.all_models(), body2, parsed=parsed, max_paths=50, timeout=30)
+                results.append((i, j, r)); stats['models_used'] |= st['models_used']; stats['paths'] += st['paths']
+        if all(len(r) == 1 for _, _, r in results):
+            # one value per ordered pair: fold the cases back into a single expression over (a, b)
+            e = None
+            for i, j, r in results:
+                v = r[0][1]; v = v if z3.is_expr(v) else z3.RealVal(v)
+                e = v if e is None else z3.If(z3.And(a == i, b == j), v, e)
+            class _P: pc = []
+            return [(_P(), e)], stats
+        return [(it_, (v if z3.is_expr(v) else z3.RealVal(v))) for _, _, r in results for it_, v in r], stats
 
 def check_c20(ck, tier, replay=None):
     if replay: return do_replay(replay)
@@ -115,7 +139,7 @@ def check_c20(ck, tier, replay=None):
                     st_, mdl = smt.prove(ck, '%s: convert(a,b)*convert(b,c) == convert(a,c) for all a,b,c' % ty, rng + allpc(pab, pbc, pac), [eab * pbc[1] != pac[1]], TO, probe=rng + [free * pbc[1] != pac[1]] + allpc(pbc, pac))
                     if st_ == 'sat': note_violation(ck, ty, names, mdl, 'transitivity', 'triple')
         conv_expr[ty] = (rab, names)
-        ck.sample({'dimension': ty, 'enumerators': names, 'convert(a,b)': str(z3.simplify(rab[0][1]))[:300]})
+        ck.sample({'dimension': ty, 'enumerators': names, 'convert(a,b)': str(z3.simplify(rab[0][1]) if z3.is_expr(rab[0][1]) else rab[0][1])[:300]})
     # ---------------- derived units equal the quotient of the base conversions (to 2^-50 relative) ----------------
     EPS = F(1, 2**50)
     for ty, comp in DERIVED.items():
@@ -173,6 +197,7 @@ def check_c20(ck, tier, replay=None):
         ck.obligation('CsgUnits[%d] is %s::%s' % (k, ty, nm), 'unsat' if got == enums[ty].index(nm) else 'sat', 0.0, True)
     ck.assumptions += ['enum arguments range over the declared enumerators (out-of-range casts are outside the claim)', 'reference values: CODATA 2018 / SI exact constants embedded in props/C20.py; calorie: thermochemical 4.184 J for UnitConverter, either thermochemical or International-Table accepted for the stand-alone constant, but all places must agree with each other',
                        'the double literals are taken as their exact rational values; products/quotients in exact real arithmetic; derived (constexpr-folded) tables compared to 2^-50 relative', 'Elements tables (string-keyed maps) are outside the claim']
+    if CASE_SPLIT: ck.notes.append('convert overloads %s are not table-shaped any more: enum arguments case-split per ordered pair' % sorted(CASE_SPLIT))
     ck.bounds.update({'enum pairs/triples': 'all (symbolic enum arguments, one query per clause and dimension)', 'tolerance': '1e-4 relative (four significant digits)'})
     for o in ck.obl:
         if o['status'] == 'sat' and not any(o['name'] in v['what'] or True for v in ck.viol + [{'what': w} for _, w in ck.known_hit]):
